@@ -107,7 +107,7 @@ impl QueryMut for InsertNodesQuery {
                 }
 
                 if let Some(alias) = self.aliases.get(index) {
-                    db.insert_new_alias(*db_id, alias)?;
+                    db.insert_alias(*db_id, alias)?;
                 }
 
                 ids.push(*db_id);
